@@ -240,6 +240,31 @@ func (c *Ctx) funcDecl(name string) (*ast.FuncDecl, *types.Func) {
 			}
 		}
 	}
+	// an unexported helper that moved between receivers (method ↔ plain function) keeps its role: resolve it by its bare name when
+	// exactly one declaration carries it
+	bare := name
+	if i := strings.LastIndex(name, "."); i >= 0 {
+		bare = name[i+1:]
+	}
+	if bare == "" || ast.IsExported(bare) {
+		return nil, nil
+	}
+	var hitD *ast.FuncDecl
+	var hitF *types.Func
+	n := 0
+	for _, f := range c.Pkg.Syntax {
+		for _, d := range f.Decls {
+			if fd, ok := d.(*ast.FuncDecl); ok && fd.Name.Name == bare && fd.Body != nil {
+				if fn, _ := c.Pkg.TypesInfo.Defs[fd.Name].(*types.Func); fn != nil {
+					hitD, hitF = fd, fn
+					n++
+				}
+			}
+		}
+	}
+	if n == 1 {
+		return hitD, hitF
+	}
 	return nil, nil
 }
 
